@@ -323,7 +323,11 @@ func judge(sh *shape, m mode, nops int, o obs, b bounds) (key, why string) {
 			return "later-io", fmt.Sprintf("%s: %d connection calls after the operation returned", id, o.OpsLater)
 		}
 	case "after", "bgok":
-		if o.Err {
+		if sh.failing {
+			if !o.Err {
+				return "denial-lost", id + ": the negotiation must be denied in this shape, but the exchange succeeded"
+			}
+		} else if o.Err {
 			return "spurious-error", id + ": undisturbed exchange failed: " + o.ErrText
 		}
 		if o.Closed && !sh.selfClosing {
@@ -356,7 +360,7 @@ func quiet() {
 
 func gen(c *core.Ctx) error {
 	quiet()
-	c.Rule("every exchange shape (plain frames, AES frames, AES frames and a CLAIMTOBE handshake on streams whose connection was installed with SetConnection after construction, a CLAIMTOBE handshake + command served through the accept loop server.Serve (the context under test is the one handed to Serve), typed messages, secret+file, handshakes: no-auth clear/AES, CLAIMTOBE, FS, FS|CLAIMTOBE, TOKEN, resumed session; each followed by a request/reply) is run on the real code on both roles over an instrumented connection; a reference run counts the connection-level calls N of the instrumented side; then for EVERY k<N call k is made to stall for ever and the context is cancelled (synchronously, from a timer, by deadline; with plain contexts and with WithCancelCause / WithTimeoutCause contexts carrying a custom cause - the error must still be ctx.Err(); stall inside a channel wait or inside a real net.Pipe call); also: context cancelled beforehand, cancelled right after call k completed, cancelled after completion, context.Background() undisturbed and with the connection failing from call k. non-trivial = a during/between case (stall or cancellation in the middle of the exchange); distinct by (shape, role, timing, k, variant)")
+	c.Rule("every exchange shape (plain frames, AES frames, AES frames and a CLAIMTOBE handshake on streams whose connection was installed with SetConnection after construction, a handshake the server DENIES (no common method: it writes a rejection ad and gives up; stalled also at that write), a CLAIMTOBE handshake + command served through the accept loop server.Serve (the context under test is the one handed to Serve), typed messages, secret+file, handshakes: no-auth clear/AES, CLAIMTOBE, FS, FS|CLAIMTOBE, TOKEN, resumed session; each followed by a request/reply) is run on the real code on both roles over an instrumented connection; a reference run counts the connection-level calls N of the instrumented side; then for EVERY k<N call k is made to stall for ever and the context is cancelled (synchronously, from a timer, by deadline; with plain contexts and with WithCancelCause / WithTimeoutCause contexts carrying a custom cause - the error must still be ctx.Err(); stall inside a channel wait or inside a real net.Pipe call); also: context cancelled beforehand, cancelled right after call k completed, cancelled after completion, context.Background() undisturbed and with the connection failing from call k. non-trivial = a during/between case (stall or cancellation in the middle of the exchange); distinct by (shape, role, timing, k, variant)")
 	c.Assume("closing a net.Conn makes a blocked Read/Write return (exercised on net.Pipe, a TCP loopback pair and the harness connection, not provable in the model)")
 	c.Assume("promptness is measured against a 2 s bound (3 s to return at all), not proved; a failure on these bounds counts only if it also fails isolated re-runs with the bounds doubled up to 16 s / 24 s")
 	assumptionProbe(c)
@@ -374,7 +378,7 @@ func gen(c *core.Ctx) error {
 			if err != nil {
 				return err
 			}
-			if !ref.Returned || ref.Err {
+			if !ref.Returned || ref.Err != sh.failing || ref.CtxErr {
 				// a shape that does not work undisturbed is a harness problem, not a finding
 				c.Note(fmt.Sprintf("shape %s role %d skipped: reference run failed (%s / peer %s)", sh.name, role, ref.ErrText, ref.PeerErr))
 				c.Count("shape-skipped")
@@ -541,7 +545,7 @@ func gen(c *core.Ctx) error {
 		if j.m.Timing == "during" && !o.Reached {
 			c.Count("deadline-before-stall")
 		}
-		if o.Unjudged || (j.sh.selfClosing && j.m.Timing != "during") {
+		if o.Unjudged || (j.sh.selfClosing && j.m.Timing != "during") || (j.sh.failing && (j.m.Timing == "after" || j.m.Timing == "bgok")) {
 			c.Evaluated(1) // the accept loop closes a finished connection itself: "closed" is not comparable with the model there
 		} else if j.m.Timing != "between" && !(j.m.Timing == "during" && !o.Reached) {
 			c.AddCase(fmt.Sprintf("CRun %s %s %s %s %s %s %s", core.Nat(j.nops), core.Nat(j.m.K), timingTerm(j.m.Timing),
